@@ -224,6 +224,7 @@ ob_histories.wants_all_cores = True
 # ---- a second actor at every call boundary ------------------------------------------------------------------------------
 
 OTHER_TEXT = "===DOC===\nW::other\n===END===\n"
+KEEP_TEXT = "===DOC===\nA::new\nC::4\n===END===\n"  # same length as fsharness.OLD; padded/cut to the file's length otherwise
 
 
 def second_actor_cases():
@@ -232,7 +233,7 @@ def second_actor_cases():
     for name in ("wt_overwrite_hashok", "wt_changes_hashok", "wt_normalize_hashok", "at_overwrite_hashok", "wt_overwrite_nohash", "wt_new_nohash"):
         scn = next(s for s in F.scenarios() if s["name"] == name)
         bh = scn["call"].get("base_hash")
-        others = [{"kind": "external", "text": OTHER_TEXT}, {"kind": "write_tool", "call": {"content": OTHER_TEXT, **({"base_hash": bh} if bh else {})}}]
+        others = [{"kind": "external", "text": OTHER_TEXT}, {"kind": "external_keepstat", "text": KEEP_TEXT}, {"kind": "write_tool", "call": {"content": OTHER_TEXT, **({"base_hash": bh} if bh else {})}}]
         if scn["pre"]:
             others.append({"kind": "delete"})
         for o in others:
@@ -250,7 +251,7 @@ def eval_second_actor(scn: dict, other: dict, k: int, tr_calls: list, r: dict) -
     at = f"{k}:{tr_calls[k][1]}" if k < len(tr_calls) else str(k)
     extra_entries = [e for e in r["after"] if e != tgt and e not in r["before"]]
     holds_hash = bool(scn["call"].get("base_hash"))
-    other_changed = other["kind"] in ("external", "delete") or oth.get("status") == "success"
+    other_changed = other["kind"] in ("external", "external_keepstat", "delete") or oth.get("status") == "success"
     if r.get("exception"):
         return None  # the call raised: not a C17 clause (C20)
     if st == "error" and extra_entries:
@@ -317,23 +318,25 @@ def ob_second_actor(ctx: Ctx) -> Outcome:
             continue
         seen.add(key)
         wits.append(Witness(what=f"{scn['name']} + {other['kind']}: {p.split('|', 1)[1]}", input={"scenario": scn["name"], "other": other["kind"], "k": k}, key=key, replay={"runner": "props.C17_b:replay_second", "args": {"ci": ci, "k": k}}, confirmed=True))
-    extra = dict(bound=f"{len(_SA)} (writer scenario, second actor) pairs x every counted file-system call of the writer ({len(jobs)} interleaving points): the second actor (external write, external delete, or a complete second octave_write holding the same base_hash) performs its whole operation right before that call", evaluations=len(jobs), distinct_nontrivial=len(jobs), rule="a case is one (scenario, actor, call index)")
+    extra = dict(bound=f"{len(_SA)} (writer scenario, second actor) pairs x every counted file-system call of the writer ({len(jobs)} interleaving points): the second actor (external write, external write that keeps length and timestamps, external delete, or a complete second octave_write holding the same base_hash) performs its whole operation right before that call", evaluations=len(jobs), distinct_nontrivial=len(jobs), rule="a case is one (scenario, actor, call index)")
     if wits:
         return Outcome.refuted("real write paths with a second actor", wits, **extra)
     return Outcome.ok("real write paths with a second actor", **extra)
 
 
 def _window(calls: list, k: int) -> str:
-    """where k lies relative to the writer's final re-read (the last `open` before os.replace)"""
+    """where k lies relative to the point at which the writer's temp file is complete (its last close of the
+    *.tmp file before os.replace). Defined from the temp-file steps, not from the writer's own re-read, so that a
+    writer that skips or moves its final comparison does not move the window with it."""
     names = [c[1] for c in calls]
     try:
         rep = len(names) - 1 - names[::-1].index("os.replace")
     except ValueError:
         return "no-replace"
-    opens = [i for i, n in enumerate(names[:rep]) if n in ("open", "Path.read_text")]
-    last_open = opens[-1] if opens else -1
-    if k <= last_open:
-        return "before-final-reread"
+    closes = [i for i, c in enumerate(calls[:rep]) if c[1] == "file.close" and str(c[2]).endswith(".tmp")]
+    done = closes[-1] if closes else rep - 1
+    if k <= done:
+        return "before-temp-complete"
     return "between-final-reread-and-replace"
 
 
